@@ -201,7 +201,7 @@ def gen_program(tape, feat):
         else:
             node["tock"] = tape.pick("tock", [0.0] + [y for y in ys if y])
             ew = feat["enter"]
-            names = [a for a in ("ok", "raise_", "ret") if ew.get(a)]
+            names = [a for a in ("ok", "raise_", "ret", "kbint") if ew.get(a)]
             e = names[tape.weighted("enter", [ew[a] for a in names])].rstrip("_")
             node["enter"] = e
             if e == "ret":
@@ -433,6 +433,11 @@ def _on_enter(run, nid):
         run.fault("doer_raise_in_enter")
         run.ev("raise", nid)
         raise SimFault("enter%d" % nid)
+    if e == "kbint":
+        st.outcome = "kbint"
+        run.fault("kbint_in_enter")
+        run.ev("kbint", nid)
+        raise KeyboardInterrupt()
     if e == "ret":
         st.outcome = "ret"
         run.fault("return_in_enter")
